@@ -771,3 +771,23 @@ mod tests {
         assert_eq!(r.get_rx_datarate(DR::_12, 0, &Window::_1), DR::_8);
     }
 }
+
+/// Read-only projection of a channel plan for external verification harnesses.
+#[cfg(feature = "verif-hooks")]
+#[derive(Debug, Clone, PartialEq, Default)]
+pub struct VerifPlan {
+    pub fixed: bool,
+    pub mask: [u8; 9],
+    /// Dynamic plans: (uplink frequency, downlink frequency override, min DR, max DR) per slot.
+    pub channels: [Option<(u32, Option<u32>, u8, u8)>; 16],
+    /// Fixed plans: (max_retries, num_retries, preferred_subband, previous_channel,
+    /// available mask, available previous).
+    pub join_walk: Option<(usize, usize, Option<u8>, u8, [u8; 9], Option<u8>)>,
+}
+
+#[cfg(feature = "verif-hooks")]
+impl Configuration {
+    pub fn verif_plan(&self) -> VerifPlan {
+        region_dispatch!(self, verif_plan)
+    }
+}
